@@ -193,26 +193,31 @@ def check_metric(run, pts, recs, presentation="tensors", reverse=False):
     for k, (i, j) in enumerate(S):
         gam[i, j] = gam[j, i] = fieldof(lambda p, k=k: p["g"][k])
         K[i, j] = K[j, i] = fieldof(lambda p, k=k: p["k"][k])
-    rel = core.AurelCore(fd, verbose=False, clear_cache_every_nbr_calc=10 ** 6)     # keep everything: the second pass re-reads it
-    rel.data["alpha"] = fieldof(lambda p: p["a2"] / 2)
     beta = np.array([fieldof(lambda p, i=i: p["b"][i] / 2) for i in range(3)])
-    if presentation == "tensors":
-        rel.data["gammadown3"] = gam
-        rel.data["Kdown3"] = K
-        rel.data["betaup3"] = beta
-    else:
-        # the same fields handed over component by component; "partial-shift": only the non-zero shift components are given
-        for (i, j), nm in zip(S, ["xx", "xy", "xz", "yy", "yz", "zz"]):
-            rel.data["g" + nm] = gam[i, j].copy()
-            rel.data["k" + nm] = K[i, j].copy()
-        for i, nm in enumerate("xyz"):
-            if presentation == "components" or np.abs(beta[i]).max() > 0:
-                rel.data["beta" + nm] = beta[i]
-    rel.freeze_data()
+
+    def make_rel():
+        rel = core.AurelCore(fd, verbose=False, clear_cache_every_nbr_calc=10 ** 6)     # keep everything: the second pass re-reads it
+        rel.data["alpha"] = fieldof(lambda p: p["a2"] / 2)
+        if presentation == "tensors":
+            rel.data["gammadown3"] = gam
+            rel.data["Kdown3"] = K
+            rel.data["betaup3"] = beta
+        else:
+            # the same fields handed over component by component; "partial-shift": only the non-zero shift components are given
+            for (i, j), nm in zip(S, ["xx", "xy", "xz", "yy", "yz", "zz"]):
+                rel.data["g" + nm] = gam[i, j].copy()
+                rel.data["k" + nm] = K[i, j].copy()
+            for i, nm in enumerate("xyz"):
+                if presentation == "components" or np.abs(beta[i]).max() > 0:
+                    rel.data["beta" + nm] = beta[i]
+        rel.freeze_data()
+        return rel
+    rel = make_rel()
     by = {r["pt"]: r["out"] for r in recs}
     fr = lambda x: Fraction(x[0], x[1])
-    # s_to_st first, before any request has cached the shift vector: K_00 = beta^i beta^j K_ij, K_0k = beta^i K_ik
-    got = rel.s_to_st(K.copy()).reshape((4, 4, tot))
+    # s_to_st as the first call on an instance of its own, before any request has cached the shift vector:
+    # K_00 = beta^i beta^j K_ij, K_0k = beta^i K_ik
+    got = make_rel().s_to_st(K.copy()).reshape((4, 4, tot))
     for k in range(n):
         want = np.array([float(fr(x)) for x in by[k + 1]["Kdown4"]]).reshape(4, 4)
         run.count(("metric", "s_to_st", k))
